@@ -84,4 +84,16 @@ def modelledList : List Value → Bool
   | x :: xs => modelled x && modelledList xs
 end
 
+mutual
+/-- no tag anywhere in the item -/
+def tagFree : Value → Bool
+  | .array xs => tagFreeList xs
+  | .map kvs => tagFreeList kvs
+  | .tag _ _ => false
+  | _ => true
+def tagFreeList : List Value → Bool
+  | [] => true
+  | x :: xs => tagFree x && tagFreeList xs
+end
+
 end WebAuthn.Cbor
